@@ -43,6 +43,7 @@ type Ctx struct {
 
 func NewCtx(p *Program, prop string) *Ctx {
 	curProg = p
+	constTables = nil
 	return &Ctx{Program: p, Prop: prop, min: map[string]int{}, rules: map[string]string{}}
 }
 
